@@ -42,6 +42,7 @@ def replay(p):
         kind, dA, dB, nt, rank = p['kind'], p['dA'], p['dB'], p['nt'], p['rank']
         for trial in range(12):
             rho = numqi.random.rand_density_matrix(dA * dB, k=rank, seed=int(rng.integers(1 << 30)))
+            rho_prev = numqi.random.rand_density_matrix(dA * dB, k=rank, seed=int(rng.integers(1 << 30))) if p.get('reuse') else None
             try:
                 if kind == 'eof':
                     model = EOF.EntanglementFormationModel(dA, dB, nt, rank)
@@ -51,6 +52,8 @@ def replay(p):
                     model = MEAS.DensityMatrixLinearEntropyModel((dA, dB), nt, rank)
                 else:
                     model = MEAS.DensityMatrixGMEModel((dA, dB), nt, rank)
+                if rho_prev is not None:
+                    model.set_density_matrix(rho_prev)
                 model.set_density_matrix(rho)
                 with torch.no_grad():
                     loss = float(model())
@@ -144,44 +147,7 @@ def congruence(ctx, kinds=('log', 'sqrt', 'recip')):
     return out
 
 
-def matched_congruence(chk, ctx, n_code, inputs, label, key, rp, kinds=('log', 'sqrt', 'recip'), base=()):
-    """pair every abstracted-function application made by the reference (aux entries from n_code on) with the application made by
-    the code on a numerically equal argument; the equality of the two argument terms becomes its own solver obligation (an identity),
-    and is handed to the main obligation as a hypothesis together with the congruence instance  arg_c == arg_r -> f(arg_c) == f(arg_r)"""
-    rng = random.Random(7)
-    envs = []
-    for _ in range(2):
-        env = H.random_env(inputs, rng)
-        for var, kind, data in ctx.aux:       # free variables introduced by stubs are not in `inputs`
-            pass
-        envs.append(env)
-    code = [(v, k, d) for v, k, d in ctx.aux[:n_code] if k in kinds and isinstance(d, ir.N)]
-    ref = [(v, k, d) for v, k, d in ctx.aux[n_code:] if k in kinds and isinstance(d, ir.N)]
-    hyps = []
-    if not ref:
-        return hyps
-    allv = ir.variables([d for _, _, d in code + ref])
-    vals = []
-    for env in envs:
-        for n_ in allv:
-            env.setdefault(n_.val, rng.uniform(0.2, 1.5))
-        H.complete_env(ctx, env)
-        vals.append(env)
-    for vr, kr, dr in ref:
-        for vc, kc, dc in code:
-            if kc != kr:
-                continue
-            try:
-                same = all(abs(ir.evaluate([dc], e)[0] - ir.evaluate([dr], e)[0]) < 1e-9 for e in vals)
-            except Exception:
-                same = False
-            if same:
-                eq = ir.rcmp('eq', dc, dr)
-                if dc is not dr:
-                    chk.add(f'{label}: argument of {kr} in the code == argument in the reference formula', list(base), eq, key=key, replay=rp)
-                hyps += [eq, ir.rcmp('eq', vc, vr)] if dc is dr else [eq, ir.bor(ir.bnot(eq), ir.rcmp('eq', vc, vr))]
-                break
-    return hyps
+matched_congruence = H.matched_congruence
 
 
 class _Const(torch.nn.Module):
@@ -210,23 +176,31 @@ def run(chk):
     cfgs = [('eof', 2, 2, 2, 2), ('eof', 2, 2, 3, 2), ('concurrence', 2, 2, 2, 2), ('concurrence', 2, 2, 3, 2), ('linear_entropy', 2, 2, 2, 2), ('gme', 2, 2, 2, 2), ('eof', 2, 2, 2, 1)]
     if not quick:
         cfgs += [('eof', 2, 3, 3, 2), ('eof', 3, 2, 3, 2), ('concurrence', 2, 2, 4, 3), ('linear_entropy', 2, 3, 3, 2), ('linear_entropy', 3, 2, 2, 2), ('gme', 2, 3, 2, 2), ('gme', 2, 2, 3, 3), ('eof', 2, 2, 4, 4)]
-    chk.bound(models='(kind, dimA, dimB, ensemble size, rank): ' + str(cfgs), rho='arbitrary symbolic Hermitian trace-one input with the stated spectrum contract',
+    cfgs = [c + (False,) for c in cfgs]
+    # history: one model instance re-used for a second state (set_density_matrix called twice): everything must refer to the *second* state
+    cfgs += [('concurrence', 2, 2, 2, 2, True), ('eof', 2, 2, 2, 2, True), ('linear_entropy', 2, 2, 2, 2, True), ('gme', 2, 2, 2, 2, True)]
+    chk.bound(models='(kind, dimA, dimB, ensemble size, rank, instance re-used for a second state): ' + str(cfgs), rho='arbitrary symbolic Hermitian trace-one input with the stated spectrum contract',
               U='arbitrary complex ensemble x rank matrix with U^dag U = I')
-    for kind, dA, dB, nt, rank in cfgs:
+    for kind, dA, dB, nt, rank, reuse in cfgs:
         chk.configurations += 1
         D = dA * dB
-        tag = f'{kind[0]}{dA}{dB}{nt}{rank}_'
+        tag = f'{kind[0]}{dA}{dB}{nt}{rank}{"r" if reuse else ""}_'
         rho = H.herm_array(tag + 'rho', D)
         lam = [S.sc_var(tag + f'lam{j}') for j in range(D)]
         V = H.cx_array(tag + 'v', (D, D))
         U = H.cx_array(tag + 'u', (nt, rank))
         cap = []
+        rho0 = H.herm_array(tag + 'rho0', D) if reuse else None          # the state the instance was used for before
+        lam0 = [S.sc_var(tag + f'lam0{j}') for j in range(D)]
+        V0 = H.cx_array(tag + 'v0', (D, D))
 
-        def eigh_stub(x, lam=lam, V=V):
+        def eigh_stub(x, lam=lam, V=V, rho0=rho0, lam0=lam0, V0=V0):
+            if rho0 is not None and x is rho0:
+                return A.sym_array(np.array(lam0, dtype=object), np.float64), V0
             return A.sym_array(np.array(lam, dtype=object), np.float64), V
 
-        def eigvalsh_np(x, lam=lam):
-            return A.sym_array(np.array(lam, dtype=object), np.float64)
+        def eigvalsh_np(x, lam=lam, rho0=rho0, lam0=lam0):
+            return A.sym_array(np.array(lam0 if (rho0 is not None and x is rho0) else lam, dtype=object), np.float64)
 
         def eigvalsh_t(x, cap=cap, tag=tag):
             cap.append(x)
@@ -243,10 +217,13 @@ def run(chk):
         tf = ST.torch_facade(stubs={'eigvalsh': eigvalsh_t}, extra={'tensor': t_tensor})
         pre = [(l_ >= 0).n for l_ in lam] + [(lam[i] <= lam[i + 1]).n for i in range(D - 1)] + [H.eq_sc(_sum(lam[-rank:]), 1)] + [H.eq_sc(l_, 0) for l_ in lam[:-rank]]
         pre += [H.eq_sc(_sum(rho[k, k] for k in range(D)), 1)]
+        if reuse:
+            pre += [(l_ >= 0).n for l_ in lam0] + [(lam0[i] <= lam0[i + 1]).n for i in range(D - 1)] + [H.eq_sc(_sum(lam0[-rank:]), 1)] + [H.eq_sc(l_, 0) for l_ in lam0[:-rank]]
+            pre += [H.eq_sc(_sum(rho0[k, k] for k in range(D)), 1)]
         phiA = H.cx_array(tag + 'fa', (nt, dA)) if kind == 'gme' else None
         phiB = H.cx_array(tag + 'fb', (nt, dB)) if kind == 'gme' else None
 
-        def body(kind=kind, dA=dA, dB=dB, nt=nt, rank=rank, rho=rho, U=U, cap=cap, phiA=phiA, phiB=phiB):
+        def body(kind=kind, dA=dA, dB=dB, nt=nt, rank=rank, rho=rho, U=U, cap=cap, phiA=phiA, phiB=phiB, rho0=rho0):
             del cap[:]
             if kind == 'eof':
                 model = EOF.EntanglementFormationModel(dA, dB, nt, rank)
@@ -256,6 +233,8 @@ def run(chk):
                 model = MEAS.DensityMatrixLinearEntropyModel((dA, dB), nt, rank)
             else:
                 model = MEAS.DensityMatrixGMEModel((dA, dB), nt, rank)
+            if rho0 is not None:
+                model.set_density_matrix(rho0)
             model.set_density_matrix(rho)
             if kind in ('eof', 'concurrence'):
                 model.manifold = _Const(U)
@@ -278,8 +257,8 @@ def run(chk):
             chk.engine_error(f'{kind} model {dA}x{dB} nt={nt} rank={rank}', e)
             continue
         chk.add_path_stats(st)
-        rp = ('c13', {'what': 'model', 'kind': kind, 'dA': dA, 'dB': dB, 'nt': nt, 'rank': rank})
-        cfg = f'[{kind} model, {dA}x{dB}, {nt} terms, rank {rank}]'
+        rp = ('c13', {'what': 'model', 'kind': kind, 'dA': dA, 'dB': dB, 'nt': nt, 'rank': rank, 'reuse': reuse})
+        cfg = f'[{kind} model, {dA}x{dB}, {nt} terms, rank {rank}' + (', instance re-used after another state' if reuse else '') + ']'
         stiefel = [H.eq_sc(_sum(S.as_sc(U[i, a]).conjugate() * S.as_sc(U[i, b]) for i in range(nt)), 1 if a == b else 0) for a in range(rank) for b in range(a, rank)]
         for pi, path in enumerate(paths):
             if path.status != 'return':
@@ -372,7 +351,7 @@ def run(chk):
                     ref = S.as_sc(1) - _sum(_abs2(o) for o in ov)
                     claim = H.eq_sc(lossv, ref)
                     what = '1 - sum_i |<conj(phi_i^A (x) phi_i^B) | psi_i>|^2'
-                hyps = matched_congruence(chk, path.ctx, n_code, [rho, V, U] + ([phiA, phiB] if kind == 'gme' else []), f'{cfg} A3', f'{kind} model: loss is not the ensemble average', rp, base=base)
+                hyps = matched_congruence(chk, path.ctx, n_code, [rho, V, U] + ([phiA, phiB] if kind == 'gme' else []) + ([rho0, V0] if reuse else []), f'{cfg} A3', f'{kind} model: loss is not the ensemble average', rp, base=base)
                 chk.add(f'{cfg} A3: loss == {what}', base + path.facts + hyps, claim, key=f'{kind} model: loss is not the ensemble average', replay=rp)
                 chk.add(f'{cfg} reach (path {pi})', base, ir.TRUE, kind='reach')
                 chk.add(f'{cfg} reach: the Stiefel constraint is satisfiable', stiefel, ir.TRUE, kind='reach')
